@@ -27,7 +27,7 @@ def scenarios(rng, n, tier):
             o["tags"] = sorted(rng.sample(range(1, 6), rng.randint(0, 3)))
             o["argshape"] = rng.choice(["none", "empty", "one", "many", "nested"])
             o["kwshape"] = rng.choice(["none", "empty", "one", "many", "reserved"])
-            o["hkind"] = rng.choice(["plain", "plain", "partial_kw", "partial_pos"])
+            o["hkind"] = rng.choice(["plain", "plain", "partial_kw", "partial_pos", "wrapped"])
             o["payload"] = i + 1
             scn["ops"].append(o)
         for _ in range(rng.randint(3, 8)):
